@@ -299,6 +299,49 @@ def oracle_sides(ent, d):
     return None
 
 
+def oracle_late_shorten(ent, d):
+    """C10 for pairs, -l / -L: shortening comes after adapter trimming (and poly-A trimming), whatever kind of step the adapters are
+    (two single-end steps, --pair-adapters, paired --revcomp): the run without -l/-L, shortened afterwards, gives the same reads"""
+    import copy
+
+    pcfg, pairs, res = ent["cfg"], ent["pairs"], ent["impl"]
+    b = pcfg.base
+    if b.length is None and pcfg.length2 is None:
+        return None
+    if b.trim_n or b.length_tag is not None or b.max_n is not None or pcfg.min_len is not None or pcfg.max_len is not None or b.casava:
+        return None
+    if res.get("exit") != 0:
+        return None
+    c = copy.deepcopy(pcfg)
+    c.base.length, c.length2 = None, None
+    c.base.info_file, c.base.side_files = False, ()
+    r = P.run_impl(c, pairs, d)
+    if r["exit"] != 0:
+        return None
+    lens = (b.length, pcfg.length2 if pcfg.length2 is not None else b.length)
+
+    def short(rec, n):
+        if n is None or not isinstance(rec, tuple) or len(rec) != 3:
+            return rec
+        name, s, q = rec
+        if n >= 0:
+            return (name, s[:n], None if q is None else q[:n])
+        return (name, s[n:], None if q is None else q[n:])
+
+    for key, prs in r["files"].items():
+        if str(key).startswith("_") or not isinstance(prs, list):
+            continue
+        want = [tuple(short(rec, n) for rec, n in zip(pr, lens)) if isinstance(pr, tuple) and len(pr) == 2 and isinstance(pr[0], tuple) else pr
+                for pr in prs]
+        got = res["files"].get(key, [])
+        if got != want:
+            for x, y in zip(got, want):
+                if x != y:
+                    return "output %r has %r; the same run without -l/-L, shortened afterwards, gives %r" % (key, x, y)
+            return "output %r: %d records; without -l/-L %d" % (key, len(got), len(want))
+    return None
+
+
 def oracle_paired_revcomp(ent):
     pcfg = ent["cfg"]
     b = pcfg.base
@@ -373,7 +416,7 @@ PAIRED_ORACLES = {
     "C04": lambda ent, d: oracle_sync(ent),
     "C05": lambda ent, d: oracle_sync(ent) or oracle_pair_adapters(ent) or oracle_decision(ent, d),
     "C09": lambda ent, d: oracle_sides(ent, d),
-    "C10": lambda ent, d: oracle_sides(ent, d),
+    "C10": lambda ent, d: oracle_sides(ent, d) or oracle_late_shorten(ent, d),
     "C11": lambda ent, d: oracle_decision(ent, d),
     "C15": lambda ent, d: oracle_sync(ent) or oracle_pdemux(ent, d) or oracle_decision(ent, d),
     "C16": lambda ent, d: oracle_paired_revcomp(ent),
@@ -383,7 +426,7 @@ PAIRED_FOCUS = {
     "C04": ("filters", "demux", "combinatorial", "adapters", "qual", "nextseq", "sidefiles:0.3"),
     "C09": ("adapters", "adapters2:0.7", "times", "action"),
     "C05": FOCUS,
-    "C10": ("cut", "qual", "length", "adapters", "trimn", "names", "zerocap", "nextseq"),
+    "C10": ("cut", "qual", "length", "adapters", "trimn", "names", "zerocap", "nextseq", "stageorder:0.15"),
     "C11": ("filters", "pairfilter", "adapters", "onesided:0.3"),
     "C15": ("demux", "combinatorial", "adapters", "times"),
     "C16": ("revcomp", "adapters", "times", "action"),
